@@ -576,6 +576,39 @@ pub fn oracle_c09_c10(op: &str, outs: &[String], check_c09: bool, check_c10: boo
         }
     }
     if check_c10 {
+        // the RX1 delay in force is the one the last accepted JoinAccept negotiated (RxDelay 0 and 1
+        // both mean one second) until an accepted downlink may have changed it (RXTimingSetupReq):
+        // judged from the history's own JoinAccept, not from the implementation's state
+        let mut negotiated: Option<u32> = None;
+        for (i, (ev, out)) in evs.iter().zip(outs.iter()).enumerate() {
+            let w: Vec<&str> = ev.split_whitespace().collect();
+            match w.first().copied() {
+                Some("rx1") | Some("rx2") | Some("rxc") => {
+                    if out.contains("resp=JoinSuccess") && w.len() >= 8 && w[3] == "j" {
+                        negotiated = w[7].parse::<u32>().ok().map(|d| d.max(1) * 1000);
+                    } else if out.contains("DownlinkReceived") || out.contains("SessionExpired") {
+                        negotiated = None;
+                    }
+                }
+                Some("abp") | Some("sess") | Some("persist") => negotiated = None,
+                Some("snap") => {
+                    if let (Some(n), Some(s)) = (negotiated, snaps[i].as_ref()) {
+                        if s.rx1d != n {
+                            return format!("FAIL:rx1-delay-{}-after-a-joinaccept-negotiating-{}", s.rx1d, n);
+                        }
+                    }
+                }
+                Some("delays") => {
+                    let d: Vec<u32> = out.trim_start_matches("d=").split(',').filter_map(|x| x.parse().ok()).collect();
+                    if let (Some(n), Some(d0)) = (negotiated, d.first()) {
+                        if *d0 != n {
+                            return format!("FAIL:rx1-delay-{}-after-a-joinaccept-negotiating-{}", d0, n);
+                        }
+                    }
+                }
+                _ => {}
+            }
+        }
         // delays: RX1 = negotiated delay (join: 5 s), RX2 = RX1 + 1 s
         for (i, (ev, out)) in evs.iter().zip(outs.iter()).enumerate() {
             if ev.trim() == "delays" {
